@@ -563,8 +563,8 @@ def payload(r, shape=None, n=None, prefix=None, term=None) -> str:
     runs = {
         "alnum": lambda: "".join(r.choice("ABCDEFGHJKLMNPQRSTUVWXYZ0123456789") for _ in range(n)),
         "upper": lambda: "A" * n, "lower-dash": lambda: ("a-" * n)[:n], "spaces": lambda: " " * n, "commas": lambda: "," * n,
-        "comma-space": lambda: (", " * n)[:n], "dashes": lambda: "-" * n, "colons": lambda: ":" * n, "open-brackets": lambda: "[" * min(n, 400),
-        "bracket-pairs": lambda: ("[]" * n)[:n], "nested-brackets": lambda: "[" * min(n // 2, 300) + "x" + "]" * min(n // 2, 300),
+        "comma-space": lambda: (", " * n)[:n], "dashes": lambda: "-" * n, "colons": lambda: ":" * n, "open-brackets": lambda: "[" * min(n, 60),
+        "bracket-pairs": lambda: ("[]" * n)[:n], "nested-brackets": lambda: "[" * min(n // 2, 60) + "x" + "]" * min(n // 2, 60),   # deeper nesting belongs to the nesting-blowup class
         "mixed-code-sep": lambda: ("E1," * n)[:n], "mixed-word-space": lambda: ("ab " * n)[:n], "mixed-punct": lambda: ("A-b_1. " * n)[:n],
         "dots": lambda: "." * n, "slashes": lambda: "/" * n, "quotes": lambda: ("\"'" * n)[:n], "backslashes": lambda: "\\" * n,
         "unicode": lambda: ("é中\U0001f600 " * n)[:n], "tabs": lambda: "\t" * n,
